@@ -48,12 +48,15 @@ def with_alarm(seconds, fn, *a, **kw):
     def onalarm(signum, frame):
         raise Capped()
     old = signal.signal(signal.SIGALRM, onalarm)
-    signal.setitimer(signal.ITIMER_REAL, seconds)
+    outer = signal.setitimer(signal.ITIMER_REAL, seconds)[0]      # an enclosing cap, if any: re-armed afterwards
+    t0 = time.time()
     try:
         return fn(*a, **kw)
     finally:
         signal.setitimer(signal.ITIMER_REAL, 0)
         signal.signal(signal.SIGALRM, old)
+        if outer > 0:
+            signal.setitimer(signal.ITIMER_REAL, max(0.001, outer - (time.time() - t0)))
 
 
 _WORK = {}
